@@ -19,6 +19,10 @@ ALT = os.path.realpath(REPO) != "/repo"
 EVIDENCE = os.path.join(CACHE, "alt-evidence") if ALT else os.path.join(VERIF, "evidence")
 GOENV = {"GOFLAGS": "-mod=mod", "GOPROXY": "off", "GOSUMDB": "off", "GOTOOLCHAIN": "local"}
 CORES = os.cpu_count() or 4
+try:        # VERIF_CORES caps the parallelism of one check (development: several checks side by side)
+    CORES = max(2, min(CORES, int(os.environ.get("VERIF_CORES", CORES))))
+except ValueError:
+    pass
 
 
 class Infra(Exception):
